@@ -152,6 +152,9 @@ class _VSelector(selectors.BaseSelector):
         self._map.clear()
 
 
+MUTED = [False]
+
+
 class SimLoop(asyncio.SelectorEventLoop):
     instances = []          # every loop ever created in this process (= scenario)
     T0 = 1000.0
@@ -162,6 +165,10 @@ class SimLoop(asyncio.SelectorEventLoop):
         ref[0] = self
         self._vnow = SimLoop.T0
         self._vjumps = 0
+        if MUTED[0]:
+            # loop created by the reference execution: not part of the history
+            self.sim_id = -1
+            return
         self.sim_id = len(SimLoop.instances)
         SimLoop.instances.append(self)
         LOG.add('loop_new', self.sim_id)
@@ -172,7 +179,7 @@ class SimLoop(asyncio.SelectorEventLoop):
     def close(self):
         was = self.is_closed()
         super().close()
-        if not was:
+        if not was and self.sim_id >= 0:
             LOG.add('loop_closed', self.sim_id, round(self._vnow - SimLoop.T0, 6))
 
 
